@@ -229,3 +229,25 @@ pub fn icmp_parse(v6: bool, packet: Bytes, peer: IpAddr) -> Result<IcmpParsed, S
         debug: format!("{:?}", message),
     })
 }
+
+/// The real `http1_codec::decode_request` with the codec's limits.
+/// `Ok(Some(n))` = a complete head of `n` bytes, `Ok(None)` = more bytes wanted.
+pub fn h1_decode_request(buf: &[u8]) -> Result<Option<usize>, String> {
+    use crate::http1_codec::{decode_request, DecodeStatus, MAX_HEADERS_NUM, MAX_RAW_HEADERS_SIZE};
+    match decode_request(bytes::BytesMut::from(buf), MAX_HEADERS_NUM, MAX_RAW_HEADERS_SIZE) {
+        Ok(DecodeStatus::Partial(_)) => Ok(None),
+        Ok(DecodeStatus::Complete(_, tail)) => Ok(Some(buf.len() - tail.len())),
+        Err(e) => Err(e.to_string()),
+    }
+}
+
+/// The real `http1_codec::decode_response` with the codec's limits (used for origin responses
+/// of the reverse proxy).
+pub fn h1_decode_response(buf: &[u8]) -> Result<Option<usize>, String> {
+    use crate::http1_codec::{decode_response, DecodeStatus, MAX_HEADERS_NUM, MAX_RAW_HEADERS_SIZE};
+    match decode_response(bytes::BytesMut::from(buf), MAX_HEADERS_NUM, MAX_RAW_HEADERS_SIZE) {
+        Ok(DecodeStatus::Partial(_)) => Ok(None),
+        Ok(DecodeStatus::Complete(_, tail)) => Ok(Some(buf.len() - tail.len())),
+        Err(e) => Err(e.to_string()),
+    }
+}
